@@ -1,0 +1,134 @@
+//go:build verif
+
+// Contracts for the gvc verifier (/verif). Comment-only file: it adds no code to the package.
+//
+// C14: the conversions between the wire structs (json*) and the consensus types are field-wise inverse of each
+// other and total. encoding/json itself is trusted to be the identity on the json* structs (T3).
+package tmjson
+
+//@ func jsonValidator.ToValidator
+//@   property C14
+//@   ensures decoded: result1 == nil ==> result0.Power == jv.Power && result0.PubKey == regDec(bytes(jv.PubKey))
+//@   ensures zero-on-error: result1 != nil ==> result0 == zero(tmconsensus.Validator)
+
+//@ func toJSONValidator
+//@   property C14
+//@   ensures encoded: result.Power == v.Power && bytes(result.PubKey) == regEnc(v.PubKey)
+
+//@ define validatorsDecoded(out, in) = len(out) == len(in) &&
+//@     (forall i int :: {out[i].Power} 0 <= i && i < len(in) ==> out[i].Power == in[i].Power && out[i].PubKey == regDec(bytes(in[i].PubKey)))
+//@ define keysOfValidators(keys, vals) = len(keys) == len(vals) && (forall i int :: {keys[i]} 0 <= i && i < len(vals) ==> keys[i] == vals[i].PubKey)
+
+//@ func jsonHeader.ToHeader
+//@   property C14
+//@   ensures scalars: result1 == nil ==> result0.Height == jh.Height && result0.Hash == jh.Hash && result0.PrevBlockHash == jh.PrevBlockHash &&
+//@       result0.DataID == jh.DataID && result0.PrevAppStateHash == jh.PrevAppStateHash &&
+//@       result0.Annotations.User == jh.UserAnnotation && result0.Annotations.Driver == jh.DriverAnnotation
+//@   ensures validator-set: result1 == nil ==> validatorsDecoded(result0.ValidatorSet.Validators, jh.ValidatorSet.Validators) &&
+//@       keysOfValidators(result0.ValidatorSet.PubKeys, result0.ValidatorSet.Validators) &&
+//@       result0.ValidatorSet.PubKeyHash == jh.ValidatorSet.PubKeyHash && result0.ValidatorSet.VotePowerHash == jh.ValidatorSet.VotePowerHash
+//@   ensures next-validator-set: result1 == nil ==> validatorsDecoded(result0.NextValidatorSet.Validators, jh.NextValidatorSet.Validators) &&
+//@       keysOfValidators(result0.NextValidatorSet.PubKeys, result0.NextValidatorSet.Validators) &&
+//@       result0.NextValidatorSet.PubKeyHash == jh.NextValidatorSet.PubKeyHash && result0.NextValidatorSet.VotePowerHash == jh.NextValidatorSet.VotePowerHash
+//@   ensures prev-commit-proof: result1 == nil && jh.PrevCommitProof.PubKeyHash != nil ==> result0.PrevCommitProof.Round == jh.PrevCommitProof.Round &&
+//@       result0.PrevCommitProof.PubKeyHash == bytes(jh.PrevCommitProof.PubKeyHash)
+//@   loop 1 invariant fresh(validators) && fresh(curPubKeys) && len(validators) == len(jh.ValidatorSet.Validators) && len(curPubKeys) == len(validators) &&
+//@       -1 <= rangeindex && rangeindex < len(validators) + 1 &&
+//@       (forall i int :: {validators[i].Power} 0 <= i && i <= rangeindex ==> validators[i].Power == jh.ValidatorSet.Validators[i].Power &&
+//@           validators[i].PubKey == regDec(bytes(jh.ValidatorSet.Validators[i].PubKey))) &&
+//@       (forall i int :: {curPubKeys[i]} 0 <= i && i <= rangeindex ==> curPubKeys[i] == validators[i].PubKey)
+//@   loop 2 invariant fresh(nextValidators) && fresh(nextPubKeys) && len(nextValidators) == len(jh.NextValidatorSet.Validators) && len(nextPubKeys) == len(nextValidators) &&
+//@       -1 <= rangeindex#2 && rangeindex#2 < len(nextValidators) + 1 &&
+//@       (forall i int :: {nextValidators[i].Power} 0 <= i && i <= rangeindex#2 ==> nextValidators[i].Power == jh.NextValidatorSet.Validators[i].Power &&
+//@           nextValidators[i].PubKey == regDec(bytes(jh.NextValidatorSet.Validators[i].PubKey))) &&
+//@       (forall i int :: {nextPubKeys[i]} 0 <= i && i <= rangeindex#2 ==> nextPubKeys[i] == nextValidators[i].PubKey) &&
+//@       validatorsDecoded(validators, jh.ValidatorSet.Validators) && keysOfValidators(curPubKeys, validators) && fresh(validators) && fresh(curPubKeys)
+
+//@ func jsonCommitProof.ToCommitProof
+//@   property C14
+//@   ensures scalars: result1 == nil && result0.Round == jcp.Round && result0.PubKeyHash == bytes(jcp.PubKeyHash)
+//@   ensures fresh-map: result0.Proofs != nil && fresh(result0.Proofs)
+//@   ensures every-entry-decoded: forall k int :: 0 <= k && k < len(jcp.Commits) ==> (bytes(jcp.Commits[k].BlockHash) in result0.Proofs)
+//@   modifies nothing
+//@   loop 1 invariant fresh(p.Proofs) && p.Proofs != nil && p.Round == jcp.Round && p.PubKeyHash == bytes(jcp.PubKeyHash) &&
+//@       (forall k int :: 0 <= k && k <= rangeindex ==> (bytes(jcp.Commits[k].BlockHash) in p.Proofs))
+
+//@ define validatorsEncoded(out, in) = len(out) == len(in) &&
+//@     (forall i int :: {out[i].Power} 0 <= i && i < len(in) ==> out[i].Power == in[i].Power && bytes(out[i].PubKey) == regEnc(in[i].PubKey))
+
+//@ func toJSONHeader
+//@   property C14
+//@   ensures scalars: result.Height == b.Height && result.Hash == b.Hash && result.PrevBlockHash == b.PrevBlockHash &&
+//@       result.DataID == b.DataID && result.PrevAppStateHash == b.PrevAppStateHash &&
+//@       result.UserAnnotation == b.Annotations.User && result.DriverAnnotation == b.Annotations.Driver
+//@   ensures validator-set: validatorsEncoded(result.ValidatorSet.Validators, b.ValidatorSet.Validators) &&
+//@       result.ValidatorSet.PubKeyHash == b.ValidatorSet.PubKeyHash && result.ValidatorSet.VotePowerHash == b.ValidatorSet.VotePowerHash
+//@   ensures next-validator-set: validatorsEncoded(result.NextValidatorSet.Validators, b.NextValidatorSet.Validators) &&
+//@       result.NextValidatorSet.PubKeyHash == b.NextValidatorSet.PubKeyHash && result.NextValidatorSet.VotePowerHash == b.NextValidatorSet.VotePowerHash
+//@   ensures prev-commit-proof: result.PrevCommitProof.Round == b.PrevCommitProof.Round && bytes(result.PrevCommitProof.PubKeyHash) == b.PrevCommitProof.PubKeyHash
+//@   loop 1 invariant fresh(jValidators) && len(jValidators) == len(b.ValidatorSet.Validators) && -1 <= rangeindex && rangeindex < len(jValidators) + 1 &&
+//@       (forall i int :: {jValidators[i].Power} 0 <= i && i <= rangeindex ==> jValidators[i].Power == b.ValidatorSet.Validators[i].Power &&
+//@           bytes(jValidators[i].PubKey) == regEnc(b.ValidatorSet.Validators[i].PubKey))
+//@   loop 2 invariant fresh(jNextValidators) && len(jNextValidators) == len(b.NextValidatorSet.Validators) && -1 <= rangeindex#2 && rangeindex#2 < len(jNextValidators) + 1 &&
+//@       (forall i int :: {jNextValidators[i].Power} 0 <= i && i <= rangeindex#2 ==> jNextValidators[i].Power == b.NextValidatorSet.Validators[i].Power &&
+//@           bytes(jNextValidators[i].PubKey) == regEnc(b.NextValidatorSet.Validators[i].PubKey)) &&
+//@       validatorsEncoded(jValidators, b.ValidatorSet.Validators) && fresh(jValidators)
+
+//@ func toJSONCommitProof
+//@   property C14
+//@   ensures scalars: result.Round == p.Round && bytes(result.PubKeyHash) == p.PubKeyHash
+//@   modifies nothing
+
+//@ func jsonProposedHeader.ToProposedHeader
+//@   property C14
+//@   ensures decoded: result1 == nil ==> result0.Round == jph.Round && result0.Signature == jph.Signature &&
+//@       result0.Annotations.User == jph.UserAnnotation && result0.Annotations.Driver == jph.DriverAnnotation &&
+//@       result0.Header.Height == jph.Header.Height && result0.Header.Hash == jph.Header.Hash &&
+//@       (jph.ProposerPubKey == nil ==> result0.ProposerPubKey == nil) &&
+//@       (jph.ProposerPubKey != nil ==> result0.ProposerPubKey == regDec(bytes(jph.ProposerPubKey)))
+
+//@ func toJSONProposedHeader
+//@   property C14
+//@   ensures encoded: result.Round == ph.Round && result.Signature == ph.Signature &&
+//@       result.UserAnnotation == ph.Annotations.User && result.DriverAnnotation == ph.Annotations.Driver &&
+//@       result.Header.Height == ph.Header.Height && result.Header.Hash == ph.Header.Hash &&
+//@       (ph.ProposerPubKey == nil ==> result.ProposerPubKey == nil) &&
+//@       (ph.ProposerPubKey != nil ==> bytes(result.ProposerPubKey) == regEnc(ph.ProposerPubKey))
+
+//@ func jsonCommittedHeader.ToCommittedHeader
+//@   property C14
+//@   ensures decoded: result1 == nil ==> result0.Header.Height == jch.Header.Height && result0.Header.Hash == jch.Header.Hash &&
+//@       result0.Proof.Round == jch.Proof.Round && result0.Proof.PubKeyHash == bytes(jch.Proof.PubKeyHash)
+
+//@ func toJSONCommittedHeader
+//@   property C14
+//@   ensures encoded: result.Header.Height == ch.Header.Height && result.Header.Hash == ch.Header.Hash &&
+//@       result.Proof.Round == ch.Proof.Round && bytes(result.Proof.PubKeyHash) == ch.Proof.PubKeyHash
+
+// ---- decoding arbitrary bytes: total (never panics), and a consensus message decodes to exactly one variant ----
+
+//@ func MarshalCodec.UnmarshalHeader
+//@   property C14 C09
+//@   modifies *header
+//@ func MarshalCodec.UnmarshalProposedHeader
+//@   property C14 C09
+//@   modifies *ph
+//@ func MarshalCodec.UnmarshalCommittedHeader
+//@   property C14 C09
+//@   modifies *ch
+//@ func MarshalCodec.UnmarshalPrevoteProof
+//@   property C14 C09
+//@   ensures fresh-map: result == nil ==> p.Proofs != nil && fresh(p.Proofs)
+//@   modifies *p
+//@ func MarshalCodec.UnmarshalPrecommitProof
+//@   property C14 C09
+//@   ensures fresh-map: result == nil ==> p.Proofs != nil && fresh(p.Proofs)
+//@   modifies *p
+//@ func MarshalCodec.UnmarshalConsensusMessage
+//@   property C14 C09
+//@   ensures at-most-one-variant-set: result == nil ==>
+//@       (m.ProposedHeader != old(m.ProposedHeader) ==> m.PrevoteProof == old(m.PrevoteProof) && m.PrecommitProof == old(m.PrecommitProof)) &&
+//@       (m.PrevoteProof != old(m.PrevoteProof) ==> m.ProposedHeader == old(m.ProposedHeader) && m.PrecommitProof == old(m.PrecommitProof)) &&
+//@       (m.PrecommitProof != old(m.PrecommitProof) ==> m.ProposedHeader == old(m.ProposedHeader) && m.PrevoteProof == old(m.PrevoteProof))
+//@   ensures error-sets-nothing: result != nil ==> m.ProposedHeader == old(m.ProposedHeader) && m.PrevoteProof == old(m.PrevoteProof) && m.PrecommitProof == old(m.PrecommitProof)
+//@   modifies m.ProposedHeader, m.PrevoteProof, m.PrecommitProof
